@@ -33,7 +33,7 @@ I32, I64, U64 = INTS["int"], INTS["long"], INTS["unsigned long"]
 MS = Ty("dur", num=1, den=1000)
 TPNS = Ty("tp", num=1, den=1000000000)
 
-DROP_TYPES = ("pollfd", "pollfd *", "struct pollfd")
+DROP_TYPES = ("pollfd", "pollfd *", "struct pollfd", "std::promise<void>", "std::future<void>")
 
 
 def ptype(t):
@@ -153,6 +153,18 @@ def EFF_SPECS():
              world="QueueWorld"),
         Spec("DriverSendTo", "socket_async_impl.cpp", "SocketAsyncImpl::DriverSend", "DriverSendTo", [("q", "queue")], BOOL,
              world="QueueWorld"),
+        # the enqueue side: SocketAsyncImpl::Send / SendTo -> DoSend<Queue> -> DoSendEnqueue<Queue> (instantiations told
+        # apart by their number of parameters)
+        Spec("DoSendEnqueue_Tcp", "socket_async_impl.cpp", "SocketAsyncImpl::DoSend", "DoSendEnqueue",
+             [("promise", D), ("args", D)], BOOL, world="QueueWorld"),
+        Spec("DoSendEnqueue_Udp", "socket_async_impl.cpp", "SocketAsyncImpl::DoSend", "DoSendEnqueue",
+             [("promise", D), ("args", D), ("args", D)], BOOL, world="QueueWorld"),
+        Spec("DoSend_Tcp", "socket_async_impl.cpp", "SocketAsyncImpl::DoSend", "DoSend", [("args", D)], VOID, world="QueueWorld"),
+        Spec("DoSend_Udp", "socket_async_impl.cpp", "SocketAsyncImpl::DoSend", "DoSend", [("args", D), ("args", D)], VOID,
+             world="QueueWorld"),
+        Spec("AsyncSend", "socket_async_impl.cpp", "SocketAsyncImpl::Send", "Send", [("buffer", D)], VOID, world="QueueWorld"),
+        Spec("AsyncSendTo", "socket_async_impl.cpp", "SocketAsyncImpl::Send", "SendTo", [("buffer", D), ("dstAddr", D)], VOID,
+             world="QueueWorld"),
         # Driver::DriverImpl::StepTodos<Deadline>, one definition per instantiation, over the abstract deque / task
         # interface `TodoWorld`
         Spec("StepTodos_Unlimited", "driver_impl.cpp", "DriverImpl::Step", "StepTodos", [("deadline", "obj")], MS,
@@ -183,6 +195,9 @@ QUEUE_WORLD = {
     "buff->sock->SendSome": ("sockSendSome", U64, ["buffer->data()", U64]),
     "buff->sock->SendTo": ("sockSendTo", U64, ["buffer->data()", U64, "addr->ForUdp()"]),
     "buff->sock->DriverPending": ("sockDriverPending", VOID, []),
+    # the enqueue side (`SocketAsyncImpl::DoSend` / `DoSendEnqueue`)
+    "q.emplace": ("qEmplace", VOID, None),                     # the arguments (promise, buffer[, address]) only travel
+    "ptr->AsyncWantSend": ("driverAsyncWantSend", VOID, ["buff->sock->fd"]),
 }
 QUEUE_BINDINGS = {"promise": 0, "buffer": 1, "addr": 2}
 CATCHABLE = {"std::runtime_error": "runtime_error", "std::logic_error": "logic_error", "std::system_error": "system_error"}
@@ -223,6 +238,7 @@ class EFn(C.Fn):
         self.nloops = 0
         self.params_lean = []             # [(lean name, lean type)] of the function itself
         self.depends = set()
+        self.locked = False
         self.cur_pad = "  "
         self.wbase = "W" if spec.world == "World" else "W.toWorld"
 
@@ -244,6 +260,14 @@ class EFn(C.Fn):
     # ---- classification of calls ----------------------------------------
     def call_target(self, n):
         """('world', field, kinds, ret) | ('eff', spec) | ('pure', gen, types, ret) | None"""
+        if n["kind"] == "CXXMemberCallExpr":
+            # a call of another member function of the same object (`this->` implicit)
+            me = kids(n)[0]
+            if me.get("kind") == "MemberExpr" and kids(me) and C._strip(kids(me)[0]).get("kind") == "CXXThisExpr":
+                key = (me.get("name"), len(kids(n)) - 1)
+                if key in self.specs and self.specs[key].world == self.spec_e.world:
+                    return ("eff", self.specs[key])
+            return None
         if n["kind"] != "CallExpr":
             return None
         try:
@@ -297,6 +321,10 @@ class EFn(C.Fn):
             return None
         field, ty, pats = t
         args = [a for a in ks[1:] if a["kind"] != "CXXDefaultArgExpr"]
+        if pats is None:
+            if any(self.is_eff(a) for a in args):
+                return None
+            args, pats = [], []
         if len(args) != len(pats):
             return None
         passed = []
@@ -314,9 +342,12 @@ class EFn(C.Fn):
             if x.get("kind") == "DeclRefExpr":
                 rd = x.get("referencedDecl", {})
                 nm = rd.get("name")
-                if nm in QUEUE_BINDINGS and self.env.get(rd.get("id")) != ("binding", QUEUE_BINDINGS[nm]):
+                if nm in QUEUE_BINDINGS and callee != "q.emplace" and \
+                        self.env.get(rd.get("id")) != ("binding", QUEUE_BINDINGS[nm]):
                     return None
                 if nm == "q" and self.env.get(rd.get("id")) != "queue":
+                    return None
+                if nm == "ptr" and self.env.get(rd.get("id")) != "driverptr":
                     return None
                 if nm == "e" and self.env.get(rd.get("id")) != "caught":
                     return None
@@ -329,7 +360,7 @@ class EFn(C.Fn):
             k = x.get("kind")
             if k == "CXXThrowExpr":
                 return True
-            if k == "CallExpr":
+            if k in ("CallExpr", "CXXMemberCallExpr"):
                 t = self.call_target(x)
                 if t and t[0] in ("world", "eff"):
                     return True
@@ -345,7 +376,7 @@ class EFn(C.Fn):
             fail("reference to %s `%s` is outside the subset" % (rd.get("kind"), rd.get("name")))
         if b == "uninit":
             fail("`%s` is read before it is assigned" % rd.get("name"))
-        if b in ("drop", "frontref", "taskref", "queue", "caught") or isinstance(b, tuple):
+        if b in ("drop", "frontref", "taskref", "queue", "caught", "driverptr") or isinstance(b, tuple):
             fail("`%s` (a handle that is not modelled) is used as a value" % rd.get("name"))
         return b
 
@@ -528,7 +559,7 @@ class EFn(C.Fn):
                 self.env["tmp:" + holder] = v
                 return k(self.expr(n2))
             return self.ex(ks[idx], with_val)
-        if kind == "CallExpr":
+        if kind == "CallExpr" or (kind == "CXXMemberCallExpr" and self.call_target(n)):
             t = self.call_target(n)
             if t is None:
                 name = None
@@ -638,9 +669,15 @@ class EFn(C.Fn):
             return self.throw(C._strip(s), pad)
         if k == "ReturnStmt":
             wrap = "(some %s)" if ctx.get("in_try") else "(%s)"
-            if not kids(s):
-                return pad + "M.pure " + (wrap % "()")
-            return self.ex(kids(s)[0], lambda v: pad + "M.pure " + (wrap % self.ret_val(v)))
+            unl = ("%sM.bind (W.unlock) fun _ =>\n" % pad) if self.locked else ""       # ~lock_guard after the value is computed
+            def dropped_local(e):
+                e = C._strip(e)
+                while e["kind"] in ("ImplicitCastExpr", "CXXConstructExpr") and len(kids(e)) == 1:
+                    e = C._strip(kids(e)[0])
+                return e["kind"] == "DeclRefExpr" and self.env.get(e.get("referencedDecl", {}).get("id")) == "drop"
+            if not kids(s) or (self.spec_e.ret == VOID and dropped_local(kids(s)[0])):
+                return unl + pad + "M.pure " + (wrap % "()")
+            return self.ex(kids(s)[0], lambda v: unl + pad + "M.pure " + (wrap % self.ret_val(v)))
         if k == "CXXTryStmt":
             return self.try_(s, rest, ctx, ind)
         if k == "BreakStmt":
@@ -665,6 +702,15 @@ class EFn(C.Fn):
             if s.get("hasInit"):
                 fail("if with init-statement")
             parts = kids(s)
+            if s.get("hasVar") and self.spec_e.world == "QueueWorld" and kids(kids(parts[0])[0]) and \
+                    C.canon(kids(kids(parts[0])[0])[-1]) == "driver.lock()":
+                dv = kids(parts[0])[0]
+                self.env[dv["id"]] = "driverptr"
+                bname = self.fresh("alive")
+                fake = {"kind": "DeclRefExpr", "referencedDecl": {"id": "tmp:" + bname, "kind": "VarDecl", "name": bname},
+                        "type": {"qualType": "bool"}}
+                self.env["tmp:" + bname] = Val(bname, BOOL)
+                return "%sM.bind (W.driverLock) fun %s =>\n%s" % (pad, bname, self.if_(fake, parts[2], parts[3:], rest, ctx, ind))
             if s.get("hasVar"):
                 dv = kids(parts[0])[0]
                 return self.decl(dv, lambda: self.if_(parts[1], parts[2], parts[3:], rest, ctx, ind), pad)
@@ -749,6 +795,18 @@ class EFn(C.Fn):
         t = ptype(d.get("type"))
         inits = [c for c in kids(d) if not c["kind"].endswith("Attr")]      # [[maybe_unused]] and the like
         did = d["id"]
+        if self.spec_e.world == "QueueWorld":
+            ty = re.sub(r"^const\s+", "", ((d.get("type") or {}).get("qualType") or ""))
+            txt = C.canon(inits[-1]) if inits else ""
+            if ty == "std::lock_guard<std::mutex>" and txt == "lock_guard(sendQMtx)":
+                if self.locked or self.scope_depth != 0:
+                    fail("lock_guard that is not the function-level guard of sendQMtx")
+                self.locked = True            # every later `return` unlocks; a thrown exception is not followed
+                self.env[did] = "drop"
+                return "%sM.bind (W.lock) fun _ =>\n%s" % (pad, nxt())
+            if txt == "get(sendQ)" and "&" in ty:
+                self.env[did] = "queue"
+                return nxt()
         if self.spec_e.world == "TodoWorld" and inits:
             txt = C.canon(inits[-1])
             if txt == "todos.front()" and "&" in ((d.get("type") or {}).get("qualType") or ""):
@@ -1023,6 +1081,7 @@ class EFn(C.Fn):
     def run(self, fn):
         self.env = {}
         self.cur_pad = "  "
+        self.scope_depth = 0
         self.env_tmp = {}
         self.decl_ty = {}
         self.bind_params(fn)
@@ -1131,7 +1190,10 @@ def find_eff_function(docs, spec):
     for d in docs:
         for x in walk(d):
             if x.get("kind") in ("FunctionDecl", "CXXMethodDecl") and x.get("name") == spec.cname and C.body_of(x) is not None:
-                if len([c for c in kids(x) if c["kind"] == "ParmVarDecl"]) == spec.nparams:
+                pv = [c for c in kids(x) if c["kind"] == "ParmVarDecl"]
+                if any("..." in ((c.get("type") or {}).get("qualType") or "") for c in pv):
+                    continue                 # the template pattern with a parameter pack, not an instantiation
+                if len(pv) == spec.nparams:
                     found[x.get("id")] = x
     if len(found) != 1:
         fail("expected exactly one definition of %s with %d parameters, found %d" % (spec.cname, spec.nparams, len(found)))
